@@ -46,11 +46,6 @@ class _Rewrite(ast.NodeTransformer):
                 name = "_old%d" % len(self.olds)
                 self.olds.append((name, n.args[0]))
                 return ast.Name(id=name, ctx=ast.Load())
-            if n.func.id == "oldlist" and len(n.args) == 1:
-                # oldlist(e): snapshot of the entry contents of the list e  ==  old(list(e))
-                name = "_old%d" % len(self.olds)
-                self.olds.append((name, ast.Call(func=ast.Name(id="list", ctx=ast.Load()), args=[n.args[0]], keywords=[])))
-                return ast.Name(id=name, ctx=ast.Load())
             if n.func.id in ("forall", "exists"):
                 raise NotEvaluable("quantifier")
         return n
